@@ -24,7 +24,7 @@ PLACEMENTS = [
     "deep_array_anyof_not", "el_properties", "el_patternProperties", "el_additionalProperties",
     "el_propertyNames", "el_dependencies", "el_items", "el_contains",
 ]
-REQUIRED_COUNTERS = ["acyclic.ordered", "cyclic.refused", "multi_root", "graphs.with_decoy_property_names", "twice_reachable_graphs"] + [f"edge.{p}" for p in PLACEMENTS]
+REQUIRED_COUNTERS = ["acyclic.ordered", "cyclic.refused", "multi_root", "graphs.with_decoy_property_names", "twice_reachable_graphs", "graphs.with_class_named_Object", "graphs.with_shared_wrapper_objects"] + [f"edge.{p}" for p in PLACEMENTS]
 EXHAUSTIVE_SUBSPACES = {
     "quick": ["all 2^9 digraphs on 3 named classes incl. self-loops", "all 2^12 loop-free digraphs on 4 classes",
               "all digraphs on 1 and 2 classes"],
@@ -58,10 +58,24 @@ def plan(tier):
     return {"shards": 16, "random": 6000, "long_chains": [5, 20, 60, 120], "timeout": 3000}
 
 
+SHARED_WRAPPERS = {}
+SHARE_WRAPPERS = [False]
+
+
 def add_edge(sut, classes, src, dst, placement, serial):
     """Make class `src` depend on class `dst` through `placement`."""
     E = sut  # namespace
     owner, target = classes[src], classes[dst]
+    if SHARE_WRAPPERS[0] and placement in ("items", "anyOf", "contains", "tuple", "additionalItems", "oneOf", "allOf",
+                                          "deep_array_anyof_not"):
+        # ONE wrapper object (not two equal ones) held by every class that depends on `dst` this way: a walk
+        # that remembers elements it has expanded must still credit the dependency to each owner
+        key = (id(classes), dst)
+        if key not in SHARED_WRAPPERS:
+            SHARED_WRAPPERS[key] = [lambda: E.Array(target), lambda: E.AnyOf(E.String(), target),
+                                    lambda: E.Array(E.String(), contains=target)][dst % 3]()
+        owner.properties[f"e{serial}"] = E.Property(SHARED_WRAPPERS[key])
+        return
     name = f"e{serial}"
     # mapping keys are arbitrary strings: every other edge sits under a key with dots in it (a walk that
     # re-reads keys as dotted paths loses those)
@@ -164,9 +178,18 @@ def has_cycle(adj, nodes):
 
 def run_graph(ctx, sut, count, edges, placements, roots, tag, root_wrapper=None):
     """Build the classes, call orderer, judge."""
-    classes = [
-        sut.ObjectMeta(f"K{i}", (sut.Object,), sut_classdict(sut)) for i in range(count)
-    ]
+    names = [f"K{i}" for i in range(count)]
+    renamed = None
+    if count >= 2 and (count * 7 + len(edges)) % 11 == 0:
+        # a user's class may be called like the library's own base class (a schema titled "object")
+        renamed = (count + len(edges)) % count
+        names[renamed] = "Object"
+        ctx.count("graphs.with_class_named_Object")
+    classes = [sut.ObjectMeta(names[i], (sut.Object,), sut_classdict(sut)) for i in range(count)]
+    SHARED_WRAPPERS.clear()
+    SHARE_WRAPPERS[0] = (count + 2 * len(edges)) % 4 == 1
+    if SHARE_WRAPPERS[0]:
+        ctx.count("graphs.with_shared_wrapper_objects")
     if (count + len(edges)) % 3 == 0:
         # decoys: properties whose NAMES are the segments the walk itself looks up ("properties",
         # "additionalProperties", "items", ...), holding plain leaves - a walk which subscripts or reads a
@@ -211,7 +234,8 @@ def run_graph(ctx, sut, count, edges, placements, roots, tag, root_wrapper=None)
     if outcome != "ok":
         ctx.witness("acyclic_refused", case, f"acyclic graph raised {outcome}: {exc!r}")
         return
-    names = [cls.__name__ for cls in order]
+    index_of = {id(cls): i for i, cls in enumerate(classes)}
+    names = [f"K{index_of[id(cls)]}" if id(cls) in index_of else f"?{cls.__name__}" for cls in order]
     expected = {f"K{i}" for i in seen}
     problems = []
     if len(names) != len(set(names)):
@@ -224,8 +248,8 @@ def run_graph(ctx, sut, count, edges, placements, roots, tag, root_wrapper=None)
             if position[f"K{dst}"] > position[f"K{src}"]:
                 problems.append(f"K{src} yielded before its dependency K{dst}")
     for cls, name in zip(order, names):
-        if cls is not classes[int(name[1:])]:
-            problems.append(f"{name} yielded object is not the class itself")
+        if name.startswith("?"):
+            problems.append(f"{name[1:]} yielded object is not one of the classes of the graph")
     if problems:
         ctx.witness("bad_order", case, "; ".join(problems[:4]) + f" order={names}")
     else:
